@@ -966,6 +966,10 @@ func mustDAG(e *c20Env, d *c20Dag) *dag.DAG {
 }
 
 func c20Body(c *core.Ctx) {
+	if c.Mode == "successor" {
+		c20Successor(c)
+		return
+	}
 	n := c.Pick(192, 2400)
 	if c.Race {
 		n = c.Pick(24, 240)
@@ -984,8 +988,9 @@ func init() {
 			return []core.Pass{
 				{Name: "main", Mode: "api", Shards: 16, Timeout: 60 * time.Minute},
 				{Name: "race", Mode: "api", Race: true, Shards: 8, Timeout: 60 * time.Minute},
+				{Name: "successor", Mode: "successor", Shards: 16, Timeout: 60 * time.Minute},
 			}
 		},
-		Rule:        "192 (2400) sequences. Per sequence: three DAG definitions whose histories are produced by the real agent under the scripted executor (1-3 runs each: finished, failed, or crashed = last recorded line still running and no socket; or never run), in two of three sequences one DAG is RUNNING (an in-process agent held open by a step that never returns, or held in its onFailure / onExit handler, real unix socket; every fourth such run has a 1.5 MB step description, so that the status document the agent serves is above 1 MiB). One sequence in six contains an edit against an agent whose socket accepts and never answers, followed by an accepted edit of another step of the same run. Then 14 (24) actions against the assembled go-swagger API (swagger validation in the loop) with a recorder as the executable: start (18 parameter strings: empty, spaces, quotes, '=', $, backticks, backslash, unicode, leading/trailing blanks), stop, mark-success / mark-failed (valid, missing, unknown request id and step; older and latest runs; crashed runs), retry (with/without request id), suspend, unknown action, missing action, empty rename, invalid save, actions on an unknown DAG. Oracle per action from ground truth (the harness knows which DAG it holds running): start while running => 4xx, no spawn, stores byte-identical; start otherwise => exactly one spawn whose -p argument, unquoted as cmd/start.go does, equals the request's params byte for byte (no -p when empty); stop when not running => 4xx, nothing changes; stop when running => the held agent's run ends; mark-* while running => 4xx, nothing changes; accepted mark => exactly one file changes (the addressed run's), exactly one line is appended, and that line differs from the previous last line only in the addressed step's state (plus running->failed relabelling of a crashed run); malformed / unknown => 4xx/5xx and the byte-level dump of data, DAGs and suspend directories is identical. Non-trivial/distinct = sequences (by their action lists); evaluations = actions.",
+		Rule:        "192 (2400) sequences. Per sequence: three DAG definitions whose histories are produced by the real agent under the scripted executor (1-3 runs each: finished, failed, or crashed = last recorded line still running and no socket; or never run), in two of three sequences one DAG is RUNNING (an in-process agent held open by a step that never returns, or held in its onFailure / onExit handler, real unix socket; every fourth such run has a 1.5 MB step description, so that the status document the agent serves is above 1 MiB). One sequence in six contains an edit against an agent whose socket accepts and never answers, followed by an accepted edit of another step of the same run. Then 14 (24) actions against the assembled go-swagger API (swagger validation in the loop) with a recorder as the executable: start (18 parameter strings: empty, spaces, quotes, '=', $, backticks, backslash, unicode, leading/trailing blanks), stop, mark-success / mark-failed (valid, missing, unknown request id and step; older and latest runs; crashed runs), retry (with/without request id), suspend, unknown action, missing action, empty rename, invalid save, actions on an unknown DAG. Oracle per action from ground truth (the harness knows which DAG it holds running): start while running => 4xx, no spawn, stores byte-identical; start otherwise => exactly one spawn whose -p argument, unquoted as cmd/start.go does, equals the request's params byte for byte (no -p when empty); stop when not running => 4xx, nothing changes; stop when running => the held agent's run ends; mark-* while running => 4xx, nothing changes; accepted mark => exactly one file changes (the addressed run's), exactly one line is appended, and that line differs from the previous last line only in the addressed step's state (plus running->failed relabelling of a crashed run); malformed / unknown => 4xx/5xx and the byte-level dump of data, DAGs and suspend directories is identical. Successor pass: 32 (480) rounds in which a run of a DAG ends (finished / failed) and the DAG's next run (held in a step, in its onExit or onFailure handler) begins while the ended run's status-socket server goroutine is still on its way out (parked by the hook sock.serve.exiting until the successor answers on the same socket address, then released 0 / 5 / 60 ms later): the successor is the running run - a start is refused and spawns nothing, an edit of the recorded run is refused and changes nothing, a stop is accepted and reaches it. Non-trivial/distinct = sequences (by their action lists); evaluations = actions.",
 		Assumptions: []string{"newlines in start parameters are not generated (client.escapeArg rewrites them deliberately)", "suspend with a non-boolean value is not judged"}})
 }
